@@ -33,8 +33,8 @@ for sid in sorted(os.listdir(SD)):
     conf = (m.get('confirmed') or {}).get('confirmed')
     rows.append(f"| {sid} | {m['title']} | {tier('checks')} | {tier('checks_thorough') or '-'} | {'yes' if conf else ('no' if conf is False else 'pending')} |")
 n = len(rows)
-text = [f"{n} seeded changes are kept (one more, C10-2, was discarded: with it two existing tests, `until_proof_testing` and `until_term_encoding`, do not",
-        "terminate, so it does not pass the existing suite; `seeded/discarded/C10-2`). Each was produced by a sub-agent that saw only the property text and",
+text = [f"{n} seeded changes are kept. Two more were discarded because the existing suite does NOT pass with them (`seeded/discarded/`): C10-2 (two existing",
+        "tests, `until_proof_testing` and `until_term_encoding`, do not terminate) and C01-3 (`luminal_llama` and `luminal_llama_desugar` fail). Each was produced by a sub-agent that saw only the property text and",
         "its own scratch worktree, and confirmed by `vc/seedconfirm.py` (demo passes clean / fails patched / whole suite passes patched).",
         f"**{stats['quick']} are caught by the quick tier (a failed proof obligation of a function under contract), {stats['thorough']} only by the thorough tier's",
         f"dynamic replays (labelled dynamic, not proof), {stats['missed']} by neither** (C17-1: a two-thread interleaving of the concurrent union-find). Several quick-tier",
